@@ -3,7 +3,7 @@
    [ls] from the initial state of a freshly opened transport (Model/MuxTags.v): new requests with/without
    deadline, send-loop iterations whose write succeeds or fails, deadlines firing and their notification greenlet
    running at any later point, ARBITRARY peer frames (any type, any tag: 0, 1, unknown, duplicate, premature),
-   short frames, pings, shutdown, re-open; and over every outcome of set.pop().  [cf] is the transport
+   short frames, pings, shutdown, re-open on a new sink, Open() again on the closed sink; and over every outcome of set.pop().  [cf] is the transport
    configuration (TagPool size, ThriftMux or Kafka, and the high-water mark [base] the pool of every new connection
    starts from); the real one is [real_cfg]: max_tag = 2^24 - 1, base = 1.  The theorems hold for EVERY base >= 1,
    i.e. also from a pool that has already handed out the tags 2..base (the fast-forwarded pools of the
@@ -114,7 +114,7 @@ Theorem C11_reuse : forall cf ls l,
   p_next (pl s') <> p_next (pl s) ->
   (p_free (pl s) = [] /\ p_next (pl s') = p_next (pl s) + 1 /\ Z.of_nat (length (tmap s')) = p_next (pl s') - base cf /\
    exists c dl pick, l = Req c dl pick) \/
-  (l = Reopen /\ p_next (pl s') = base cf).
+  ((l = Reopen \/ l = OpenAgain) /\ p_next (pl s') = base cf).
 Proof.
   intros cf ls l H s s' Hne. pose proof (SInv_reach cf (ls ++ [l]) (proj2 H)) as I'.
   rewrite exec_snoc in I'. fold s in I'. fold s' in I'.
